@@ -407,6 +407,17 @@ def predicted(c, results, cells, with_class=True):
     return (out, 1 if ended else 0, cls)
 
 
+def spec_view(obs):
+    """The property does not fix the RuntimeError variant: compare Err lines without their class."""
+    return ([("Err" if l.startswith("Err ") else l) for l in obs[0]], obs[1], obs[2])
+
+
+def spec_prediction(c):
+    sr, sc = spec_run(c)
+    p = predicted(c, ["E bounds" if r == "E" else r for r in sr], sc)
+    return spec_view((p[0], p[1], "any" if p[1] else "none"))
+
+
 def agree(obs, pred):
     return obs[0] == pred[0] and obs[1] == pred[1] and (pred[2] == "any" and obs[2] != "none" or obs[2] == pred[2])
 
@@ -549,6 +560,46 @@ def matrix_program(loc, dims):
     for k in reversed(range(r)):
         body.append("  " * (k + 1) + "}")
     return "\n".join(top) + "\nvoid main() {\n" + "\n".join(body) + "\n}\n", vals
+
+
+# ================================================================== exhaustive pointer matrices
+def pointer_cases(tier):
+    """Every start position x every offset in [-n-2, n+2] for p+k, p-k (one run each: a rejection ends the
+    run), p++/p--, &a[i] for every i in [-2, n+2]; p[k], p[k]=v, *(p+k) batched through `checked`."""
+    cases = []
+    shp = [[n] for n in range(1, 6)] + ([[2, 2], [2, 3], [3, 2]] if tier == "quick" else
+                                        [d for d in shapes(3, 3) if len(d) > 1 and size(d) <= 12])
+    for dims in shp:
+        n = size(dims)
+        init = [10 + k for k in range(n)]
+        for li, loc in enumerate(("local", "global")):
+            base = {"mode": "plain", "loc": loc, "dims": dims, "init": init, "use_literal": li == 0, "ctx": 0}
+            for t in tuples_around(dims):
+                if (sum(t) + li) % 2 == 0 or tier == "thorough" or len(dims) == 1:
+                    cases.append(dict(base, ops=[("A", list(t)), ("D",)] if in_range(dims, t) else [("A", list(t))]))
+            for e in range(n):
+                st = ("A", unflat(dims, e))
+                if tier == "quick" and len(dims) > 1 and (e + li) % 2:
+                    continue
+                for k in range(-n - 2, n + 3):
+                    cases.append(dict(base, ops=[st, ("P+", k), ("D",)]))
+                    cases.append(dict(base, ops=[st, ("P-", k), ("D",)]))
+                    if len(dims) > 1:
+                        cases.append(dict(base, ops=[st, ("DA", k)]))
+                cases.append(dict(base, ops=[st, ("P++",), ("D",)]))
+                cases.append(dict(base, ops=[st, ("P--",), ("D",)]))
+                cases.append(dict(base, ops=[st, ("DW", 77), ("D",), ("R", unflat(dims, e))]))
+                if len(dims) == 1:
+                    ks = list(range(-n - 2, n + 3))
+                    ops = [st] + [("PR", k) for k in ks] + [("DA", k) for k in ks] + \
+                          [("PW", k, 500 + k) for k in ks] + [("PR", k) for k in ks] + [("D",)]
+                    cases.append(dict(base, mode="checked", ops=ops))
+                    for k in ks:
+                        if not 0 <= e + k < n:
+                            cases.append(dict(base, ops=[st, ("PR", k)]))
+                            cases.append(dict(base, ops=[st, ("PW", k, 5)]))
+                            cases.append(dict(base, ops=[st, ("DA", k)]))
+    return cases
 
 
 # ================================================================== shrinking
@@ -782,9 +833,7 @@ def run(rep):
             (mr, mc, _), = model_runs([c])
             rn = run_case(impl, c)
             sr, sc = spec_run(c)
-            spec_pred = predicted(c, ["E bounds" if r == "E" else r for r in sr], sc)
-            spec_pred = (spec_pred[0], spec_pred[1], "any" if spec_pred[1] else "none")
-            concrete = not agree(observed(c, rn), spec_pred)
+            concrete = not agree(spec_view(observed(c, rn)), spec_prediction(c))
             rep.violation(tag, dict(c, kind="prog", program=gen_program(c), model=[mr, mc], impl=rn, spec=[sr, sc],
                                     broken="correspondence Model.run_%s = main on the generated program" % c["mode"]),
                           "%s %s array %s, ops %s: impl stdout %s rc=%d, model predicts %s; property (shadow array) %s"
@@ -794,6 +843,10 @@ def run(rep):
 
     bad1 = check_stream(singles, "single")
     report(bad1, "single")
+    pcases = [c for c in pointer_cases(tier) if not trips_known(c)]
+    bad3 = check_stream(pcases, "pointer")
+    report(bad3, "pointer")
+    rep.coverage["pointer_matrix_programs"] = len(pcases)
     bad2 = check_stream(seqs, "seq")
     report(bad2, "seq")
     rep.coverage["single_access_programs"] = len(singles)
@@ -824,11 +877,10 @@ def run(rep):
         evaluations += 1
         bump("int-boundary:%s:rank%d" % (c["loc"], len(c["dims"])))
         sr, sc = spec_run(c)
-        spec_pred = predicted(c, ["E bounds" if r == "E" else r for r in sr], sc)
-        spec_pred = (spec_pred[0], spec_pred[1], "any" if spec_pred[1] else "none")
+        spec_pred = spec_prediction(c)
         obs = observed(c, rn)
         if agree(obs, predicted(c, mr, mc)):
-            if not agree(obs, spec_pred):
+            if not agree(spec_view(obs), spec_pred):
                 nb_known += 1
                 nontrivial.add(json.dumps([c["loc"], c["dims"], c["ops"]]))
                 fid = trips_known(c)
@@ -837,7 +889,7 @@ def run(rep):
                                   "out-of-range access accepted and no known finding covers it (%s)" % fid)
                 else:
                     rep.known(fid, next(f["what_fails"] for f in common.known_findings(PROP) if f["id"] == fid))
-        elif agree(obs, spec_pred):
+        elif agree(spec_view(obs), spec_pred):
             nb_fixed += 1
         else:
             rep.violation("boundary", dict(c, kind="prog", program=gen_program(c), model=[mr, mc], impl=rn, spec=[sr, sc]),
@@ -856,10 +908,11 @@ def run(rep):
                 "distinct = distinct input; non-trivial = accepted leaf tuple, or a program with a rejected access or a write",
         "exhaustive": True,
         "exhaustive_space": "leaf: all %d (shape, tuple) pairs for ranks 1-3, extents 1..5, indices in [-2, extent+2]; main: checked "
-                            "reads over the same tuple space for %d (location, shape) pairs%s" % (
+                            "reads over the same tuple space for %d (location, shape) pairs; pointers: every start x every offset in "
+                            "[-n-2, n+2] for p+k, p-k, p[k], p[k]=v, *(p+k), p++, p--, &a[i] on 1-D arrays of 1..5 cells and small N-D shapes%s" % (
                                 n_exh, len(jobs), "; every out-of-range tuple as a single read and write through rotating locations" if tier == "thorough" else ""),
         "input_distribution": hist, "samples": samples,
-        "disagreements": len(leaf_bad) + mat_bad + len(bad1) + len(bad2),
+        "disagreements": len(leaf_bad) + mat_bad + len(bad1) + len(bad2) + len(bad3),
     })
     rep.assumptions += [
         "the Gallina model is hand-written from the named C++ sites and tied to them by differential runs, not by proof",
@@ -936,11 +989,10 @@ def replay_finding(impl, f):
     c = dict(c, ops=[tuple([o[0]] + [list(x) if isinstance(x, list) else x for x in o[1:]]) for o in c["ops"]])
     rn = run_case(impl, c)
     sr, sc = spec_run(c)
-    spec_pred = predicted(c, ["E bounds" if r == "E" else r for r in sr], sc)
-    spec_pred = (spec_pred[0], spec_pred[1], "any" if spec_pred[1] else "none")
+    spec_pred = spec_prediction(c)
     (mr, mc, _), = model_runs([c])
     obs = observed(c, rn)
-    if agree(obs, spec_pred):
+    if agree(spec_view(obs), spec_pred):
         return False, "impl now matches the shadow array on %s" % [op_text(o) for o in c["ops"]], []
     if rp.get("model_mirrors", True) and not agree(obs, predicted(c, mr, mc)):
         return True, None, [dict(c, kind="prog", id=f["id"], program=gen_program(c), impl=rn, model=[mr, mc], spec=[sr, sc])]
